@@ -7,7 +7,7 @@
 (* Pure operators only: no CONSTANTS, no VARIABLES; every name starts with *)
 (* VF so the module can be EXTENDed anywhere.                              *)
 (***************************************************************************)
-EXTENDS Integers, Sequences, FiniteSets
+EXTENDS Integers, Sequences, FiniteSets, FiniteSetsExt
 
 VFBlocks(par) == 1..Len(par)
 
@@ -47,8 +47,7 @@ VFAncestorAt(par, b, h) ==
 VFAllTrees(n) == {p \in [1..n -> 0..(n - 1)] : VFIsTree(p)}
 
 (* sum of w[x] over a finite set A *)
-RECURSIVE VFSum(_, _)
-VFSum(w, A) == IF A = {} THEN 0 ELSE LET x == CHOOSE y \in A : TRUE IN w[x] + VFSum(w, A \ {x})
+VFSum(w, A) == FoldSet(LAMBDA x, acc : w[x] + acc, 0, A)
 
 (* smallest weight that is MORE THAN two thirds of total:                  *)
 (* total - floor((total - 1) / 3); for total = 3f + 1 this is the paper's  *)
